@@ -133,6 +133,36 @@ theorem reduced_eq_full_of_invariant {K : Type} [CommSemiring K] (G : Mesh) (hx 
   show f (G.q g) = f (G.q i)
   rw [hn, hT, hR R hRm]
 
+/-! ### phonon state moments -/
+
+theorem weightedSum_ones {K : Type} [CommSemiring K] (l : List K) :
+    weightedSum (List.replicate l.length 1) l = l.foldr (· + ·) 0 := by
+  unfold weightedSum
+  induction l with
+  | nil => rfl
+  | cons a l ih =>
+    simp only [List.length_cons, List.replicate_succ, List.zipWith_cons_cons, List.foldr_cons, Nat.cast_one, one_mul]
+    rw [ih]
+
+/-- **moments** (`PhononMoment._get_moment`, any order, any frequency window): if the spectrum is the same on a grid
+point and on its table entry (C03), the moment over the full mesh (every point, weight 1) equals the moment over the
+irreducible points with their weights — the instance `f = Σ_band ν^k` of the fibre sum, for numerator and norm. -/
+theorem moment_reduced_eq_full {K : Type} [Field K] [LinearOrder K] (order : Nat) (fmin fmax : K)
+    {tab ir w : List Nat} (h : extractIr tab = some (ir, w)) (ν : Nat → List K)
+    (hν : ∀ i, i < tab.length → ν i = ν (tab.getD i i)) :
+    moment order fmin fmax (List.replicate tab.length 1) ((List.range tab.length).map ν) =
+      moment order fmin fmax w (ir.map ν) := by
+  have key : ∀ k : Nat, weightedSum (List.replicate tab.length 1) (((List.range tab.length).map ν).map (powerSum k fmin fmax)) =
+      weightedSum w ((ir.map ν).map (powerSum k fmin fmax)) := by
+    intro k
+    have hl : (((List.range tab.length).map ν).map (powerSum k fmin fmax)).length = tab.length := by simp
+    have := weightedSum_ones (((List.range tab.length).map ν).map (powerSum k fmin fmax))
+    rw [hl] at this
+    rw [this, List.map_map, List.map_map]
+    exact sum_reduced_eq_full h (fun i => powerSum k fmin fmax (ν i)) (fun i hi => by show powerSum k fmin fmax (ν i) = powerSum k fmin fmax (ν (tab.getD i i)); rw [← hν i hi])
+  unfold moment
+  rw [key order, key 0]
+
 /-! ### `_shift2boolean` -/
 
 /-- decision table: integer / half-integer shift components × Γ-centre × parity of the mesh number -/
@@ -228,6 +258,7 @@ theorem generic_shift_spec_fixed : GenericShiftSpec gridPointsFixed := by
 /-! ### non-vacuity -/
 
 example : extractIr [0, 0, 2, 2, 0] = some ([0, 2], [3, 2]) := by decide
+example : moment 2 (0 : Rat) 10 [1, 3] [[1, 2], [3, 4]] ≤ 10 ∧ 10 ≤ moment 2 (0 : Rat) 10 [1, 3] [[1, 2], [3, 4]] := by decide +kernel
 /-- a real reduction: 2×2×2 Γ-centred mesh, operation list {1, x↔y}: 8 points ↦ 6 -/
 example : (⟨⟨2, 2, 2⟩, ⟨false, false, false⟩⟩ : Mesh).irTable
     [M3.one, ⟨⟨0, 1, 0⟩, ⟨1, 0, 0⟩, ⟨0, 0, 1⟩⟩] = [0, 1, 1, 3, 4, 5, 5, 7] := by decide +kernel
@@ -250,6 +281,7 @@ end PhononModel.C09
 #print axioms PhononModel.C09.mesh_sum_reduced_eq_full
 #print axioms PhononModel.C09.valid_image_spec
 #print axioms PhononModel.C09.reduced_eq_full_of_invariant
+#print axioms PhononModel.C09.moment_reduced_eq_full
 #print axioms PhononModel.C09.shift2boolean_cases
 #print axioms PhononModel.C09.shift2boolean_default
 #print axioms PhononModel.C09.shift2boolean_generic
